@@ -66,6 +66,14 @@ func runC11(c *Ctx) []Obligation {
 		c.whoMayCall(P, "baseapp.NewContext-test-only", "(*baseapp.BaseApp).NewContext", []string{}, "the helper handing out deliverState.ms has no caller in the shipped program"),
 		c.pcaNewContext(P),
 	)
+	// node-local channel between the mempool/query side and block execution
+	out = append(out, c.baseappFieldIsolation(P)...)
+	out = append(out, c.Rows([]Row{
+		{Prop: P, ID: "runTx.nondeliver-writes-no-app-field", Fn: fnRunTx, Assume: []Lit{F(deliver)},
+			Target: StoreTo(`^app\.\w+(\[.*\])?$`), Why: "outside deliver mode runTx leaves every BaseApp field (and map held in one) alone"},
+		{Prop: P, ID: "runMsg.nondeliver-writes-no-app-field", Fn: fnRunMsg, Assume: []Lit{F(deliver)},
+			Target: StoreTo(`^app\.\w+(\[.*\])?$`), Why: "outside deliver mode runMsg leaves every BaseApp field (and map held in one) alone"},
+	})...)
 	return out
 }
 
